@@ -134,4 +134,241 @@ theorem run_refines {M minCap : Nat} (hM : M ≤ 2 ^ 64) (hcap : minCap ≤ M) :
     simp only [runC, runA]
     exact ⟨by rw [h1, h3], h4⟩
 
+/-- errors a flat operation can answer -/
+def Err.isPanicReason : Err → Bool
+  | .Unreachable => false
+  | .RustPanic => false
+  | _ => true
+
+theorem Flat.verify_err {M : Nat} {f : Flat} {a c : Nat} {e : Err} (h : f.verify M a c = .error e) : e.isPanicReason = true := by
+  unfold Flat.verify at h
+  split at h
+  · cases h; rfl
+  · split at h
+    · cases h
+    · cases h; rfl
+
+theorem Flat.growStack_err {M : Nat} {f : Flat} {n : Nat} {e : Err} (h : f.growStack M n = .error e) : e.isPanicReason = true := by
+  unfold Flat.growStack at h
+  split at h
+  · cases h; rfl
+  · split at h
+    · cases h
+    · split at h
+      · cases h; rfl
+      · cases h
+
+theorem Flat.growHeap_err {f : Flat} {sp a : Nat} {e : Err} (h : f.growHeap sp a = .error e) : e.isPanicReason = true := by
+  unfold Flat.growHeap at h
+  split at h
+  · cases h; rfl
+  · split at h
+    · cases h; rfl
+    · cases h
+
+theorem Flat.memcopy_err {M : Nat} {f : Flat} {d sr l : Nat} {o : Ownership} {e : Err}
+    (h : f.memcopy M d sr l o = .error e) : e.isPanicReason = true := by
+  unfold Flat.memcopy at h
+  cases h1 : f.verify M d l with
+  | error e1 => rw [h1] at h; cases h; exact Flat.verify_err h1
+  | ok r =>
+    rw [h1] at h
+    cases h2 : f.verify M sr l with
+    | error e2 => rw [h2] at h; cases h; exact Flat.verify_err h2
+    | ok r2 =>
+      rw [h2] at h
+      dsimp only at h
+      split at h
+      · cases h; rfl
+      · split at h
+        · cases h
+        · cases h; rfl
+
+theorem stepA_out (M : Nat) (s : AState) (op : Op) :
+    (stepA M s op).2 ≠ .err .Unreachable ∧ ((stepA M s op).2 = .err .RustPanic → ∃ k, op = .rollback k) := by
+  cases op with
+  | reset => simp [stepA]
+  | growStack n =>
+    simp only [stepA]
+    cases h : s.cur.growStack M n with
+    | ok r => simp
+    | error e => have := Flat.growStack_err h; cases e <;> simp_all [Err.isPanicReason]
+  | growHeap sp a =>
+    simp only [stepA]
+    cases h : s.cur.growHeap sp a with
+    | ok r => simp
+    | error e => have := Flat.growHeap_err h; cases e <;> simp_all [Err.isPanicReason]
+  | verify a c =>
+    simp only [stepA]
+    cases h : s.cur.verify M a c with
+    | ok r => simp
+    | error e => have := Flat.verify_err h; cases e <;> simp_all [Err.isPanicReason]
+  | read a c =>
+    simp only [stepA]
+    unfold Flat.read
+    cases h : s.cur.verify M a c with
+    | ok r => simp
+    | error e => have := Flat.verify_err h; cases e <;> simp_all [Err.isPanicReason]
+  | write a data =>
+    simp only [stepA]
+    unfold Flat.write
+    cases h : s.cur.verify M a data.length with
+    | ok r => simp
+    | error e => have := Flat.verify_err h; cases e <;> simp_all [Err.isPanicReason]
+  | memcopy d sr l o =>
+    simp only [stepA]
+    cases h : s.cur.memcopy M d sr l o with
+    | ok r => simp
+    | error e => have := Flat.memcopy_err h; cases e <;> simp_all [Err.isPanicReason]
+  | snapshot => simp [stepA]
+  | rollback k =>
+    simp only [stepA]
+    repeat' split
+    all_goals simp_all
+
+
+theorem runA_out (M : Nat) : ∀ (ops : List Op) (s : AState) (i : Nat) (o : Out), (runA M s ops).2[i]? = some o →
+    o ≠ .err .Unreachable ∧ (o = .err .RustPanic → ∃ k, ops[i]? = some (.rollback k))
+  | [], s, i, o, h => by simp [runA] at h
+  | op :: ops, s, i, o, h => by
+    simp only [runA] at h
+    cases i with
+    | zero =>
+      simp only [List.getElem?_cons_zero, Option.some.injEq] at h
+      subst h
+      obtain ⟨h1, h2⟩ := stepA_out M s op
+      refine ⟨h1, fun hp => ?_⟩
+      obtain ⟨k, hk⟩ := h2 hp
+      exact ⟨k, by simp [hk]⟩
+    | succ j =>
+      simp only [List.getElem?_cons_succ] at h
+      have := runA_out M ops _ j o h
+      simpa using this
+
+/-- within one transaction (no reset) the retained snapshots are ancestors: their heap pointers are ordered and
+none is below the current one -/
+structure HpOrdered (s : AState) : Prop where
+  sorted : s.snaps.Pairwise (fun a b => a.hp ≥ b.hp)
+  above : ∀ f ∈ s.snaps, f.hp ≥ s.cur.hp
+
+theorem Flat.growStack_hp {M : Nat} {f f' : Flat} {n : Nat} (h : f.growStack M n = .ok f') : f'.hp = f.hp := by
+  unfold Flat.growStack at h
+  split at h
+  · cases h
+  · split at h
+    · cases h; rfl
+    · split at h
+      · cases h
+      · cases h; rfl
+
+theorem Flat.growHeap_hp {f f' : Flat} {sp a : Nat} (h : f.growHeap sp a = .ok f') : f'.hp ≤ f.hp := by
+  unfold Flat.growHeap at h
+  split at h
+  · cases h
+  · split at h
+    · cases h
+    · cases h; simp
+
+theorem Flat.write_hp {M : Nat} {f f' : Flat} {a l : Nat} {v : Nat → UInt8} (h : f.write M a l v = .ok f') : f'.hp = f.hp := by
+  unfold Flat.write at h
+  split at h
+  · cases h
+  · cases h; rfl
+
+theorem Flat.memcopy_hp {M : Nat} {f f' : Flat} {d sr l : Nat} {o : Ownership} (h : f.memcopy M d sr l o = .ok f') : f'.hp = f.hp := by
+  unfold Flat.memcopy at h
+  split at h
+  · cases h
+  · split at h
+    · cases h
+    · split at h
+      · cases h
+      · split at h
+        · cases h; rfl
+        · cases h
+
+theorem hpOrdered_step (M : Nat) {s : AState} (h : HpOrdered s) (op : Op) (hop : op ≠ .reset) :
+    HpOrdered (stepA M s op).1 := by
+  obtain ⟨hs, ha⟩ := h
+  cases op with
+  | reset => exact absurd rfl hop
+  | growStack n =>
+    simp only [stepA]
+    cases hg : s.cur.growStack M n with
+    | error e => exact ⟨hs, ha⟩
+    | ok f => exact ⟨hs, fun x hx => by have := Flat.growStack_hp hg; have := ha x hx; simp only; omega⟩
+  | growHeap sp a =>
+    simp only [stepA]
+    cases hg : s.cur.growHeap sp a with
+    | error e => exact ⟨hs, ha⟩
+    | ok f => exact ⟨hs, fun x hx => by have := Flat.growHeap_hp hg; have := ha x hx; simp only; omega⟩
+  | verify a c =>
+    simp only [stepA]
+    cases hg : s.cur.verify M a c with
+    | error e => exact ⟨hs, ha⟩
+    | ok r => exact ⟨hs, ha⟩
+  | read a c =>
+    simp only [stepA]
+    cases hg : s.cur.read M a c with
+    | error e => exact ⟨hs, ha⟩
+    | ok r => exact ⟨hs, ha⟩
+  | write a data =>
+    simp only [stepA]
+    cases hg : s.cur.write M a data.length (fun j => data.getD j 0) with
+    | error e => exact ⟨hs, ha⟩
+    | ok f => exact ⟨hs, fun x hx => by have := Flat.write_hp hg; have := ha x hx; simp only; omega⟩
+  | memcopy d sr l o =>
+    simp only [stepA]
+    cases hg : s.cur.memcopy M d sr l o with
+    | error e => exact ⟨hs, ha⟩
+    | ok f => exact ⟨hs, fun x hx => by have := Flat.memcopy_hp hg; have := ha x hx; simp only; omega⟩
+  | snapshot =>
+    simp only [stepA]
+    refine ⟨?_, ?_⟩
+    · rw [List.pairwise_append]
+      refine ⟨hs, List.pairwise_singleton _ _, ?_⟩
+      intro a hm b hb
+      simp only [List.mem_singleton] at hb
+      subst hb
+      exact ha a hm
+    · intro f hf
+      simp only [List.mem_append, List.mem_singleton] at hf
+      rcases hf with hf | hf
+      · exact ha f hf
+      · subst hf; exact Nat.le_refl _
+  | rollback k =>
+    simp only [stepA]
+    cases hk : s.snaps[k]? with
+    | none => exact ⟨hs, ha⟩
+    | some snap =>
+      dsimp only
+      split
+      · exact ⟨hs, ha⟩
+      · split
+        · exact ⟨hs, ha⟩
+        · refine ⟨hs.sublist (List.take_sublist _ _), ?_⟩
+          intro f hf
+          dsimp only at hf ⊢
+          -- f is among the first k+1 snapshots, snap is the k-th: ordered
+          obtain ⟨i, hi, rfl⟩ := List.mem_iff_getElem.mp hf
+          rw [List.length_take] at hi
+          rw [List.getElem_take]
+          obtain ⟨hk', hsn⟩ := List.getElem?_eq_some_iff.mp hk
+          subst hsn
+          by_cases hik : i = k
+          · subst hik; exact Nat.le_refl _
+          · exact List.pairwise_iff_getElem.mp hs i k (by omega) hk' (by omega)
+
+
+theorem hpOrdered_init (M : Nat) : HpOrdered (AState.init M) :=
+  ⟨by simp [AState.init], by intro f hf; simp [AState.init] at hf⟩
+
+theorem hpOrdered_run (M : Nat) : ∀ (ops : List Op) (s : AState), HpOrdered s → (∀ op ∈ ops, op ≠ .reset) →
+    HpOrdered (runA M s ops).1
+  | [], _, h, _ => h
+  | op :: ops, s, h, hn => by
+    simp only [runA]
+    exact hpOrdered_run M ops _ (hpOrdered_step M h op (hn op List.mem_cons_self))
+      (fun o ho => hn o (List.mem_cons_of_mem _ ho))
+
 end FuelVerif.Memory
